@@ -51,3 +51,19 @@ def fromHex? (s : String) : Option (List UInt8) :=
   if s == "-" then some [] else fromHexChars s.toList
 
 end C2pa
+
+namespace C2pa
+
+partial def driverLoop (handle : List String → String) (h out : IO.FS.Stream) : IO Unit := do
+  let line ← h.getLine
+  if line.isEmpty then return ()
+  -- the first token is the property id; the handler sees the rest
+  out.putStrLn (handle ((tokens line).drop 1))
+  driverLoop handle h out
+
+/-- Line-protocol driver: one request per line on stdin (`<property> <op> fields…`),
+one reply per line on stdout. -/
+def runDriver (handle : List String → String) : IO Unit := do
+  driverLoop handle (← IO.getStdin) (← IO.getStdout)
+
+end C2pa
